@@ -167,13 +167,13 @@ PROPS["C02"] = {
 PROPS["C04"] = {
     "level": "model_checking",
     "explanation": "ranges.Gaps with fully symbolic ranges and a symbolic bit position (the 'for every bit' quantifier is a solver variable), through the real generic slices.SortFunc",
-    "wall_quick": 1500, "wall_thorough": 14400,
+    "wall_quick": 1500, "wall_thorough": 14400, "solver_timeout_ms": 30000,
     "harnesses": [
         {"entry": "pkg/ranges.VerifGapsEmpty", "clause": "no ranges: the total range is the gap", "bounds": {}},
         {"entry": "pkg/ranges.VerifMinMax", "clause": "MinMax is the tight span", "bounds": {"values": "< 2^50"}},
         {"entry": "pkg/ranges.VerifGaps1", "clause": "cover property, 1 range", "bounds": {"total": "<= 2^40", "ranges": 1}},
         {"entry": "pkg/ranges.VerifGaps2", "clause": "cover property, 2 ranges (any order, overlap, empty ranges)", "bounds": {"total": "<= 4096", "ranges": 2}},
-        {"entry": "pkg/ranges.VerifGaps3", "clause": "cover property, 3 ranges", "bounds": {"total": "<= 4096", "ranges": 3}},
+        {"entry": "pkg/ranges.VerifGaps3", "tier": "thorough", "clause": "cover property, 3 ranges", "bounds": {"total": "<= 4096", "ranges": 3}},
         {"entry": "pkg/ranges.VerifGaps4", "tier": "thorough", "clause": "cover property, 4 ranges", "bounds": {"total": "<= 255", "ranges": 4}},
     ],
     "assumptions": ["total.Start = 0 and every range lies inside the total range (the only way FillGaps calls Gaps)"],
@@ -257,4 +257,22 @@ PROPS["C05"] = {
     ],
     "assumptions": ["the _bits/_bytes keys are read through decodeValueBase.JQValueKey (the code that builds the binary); the wrapper that first forces a raw leaf's lazy string is bypassed for raw leaves"],
     "outside": ["the jq glue (decode.jq tobits/tobytes wrappers)", "stdout plumbing", "truncate's 1024 byte boundary and snippet", "values > 6 bytes"],
+}
+
+
+PROPS["C15"] = {
+    "level": "model_checking",
+    "explanation": "checksum clauses only: the validity mark of stored checksums (UintAssertBytes) for symbolic stored value and sum bytes; one-step inductive lemmas for fq's table driven CRC-8/16/32 and for the stdlib CRC-32 (pure Go path) from an arbitrary state against bitwise polynomial division, injectivity of the step in state and in data byte (a single altered covered byte always changes the sum, for any length), big-endian Sum; the IPv4 one's complement checksum for every chunking",
+    "wall_quick": 900, "wall_thorough": 3600, "solver_timeout_ms": 60000,
+    "harnesses": [
+        {"entry": "pkg/decode.VerifUintAssertBytes", "clause": "valid <=> stored value = big-endian value of the computed sum; error iff asserting and invalid", "bounds": {"sum_bytes": "1,2,4,8", "actual": "any uint64"}},
+        {"entry": "pkg/checksum.VerifCRCStep", "clause": "CRC.Write of one byte from an arbitrary state = 8 bitwise division steps (inductive: any length); Sum big-endian", "bounds": {"tables": "ATM8/8, ANSI16/16, 04c11db7/32", "state": "any value inside the width"}},
+        {"entry": "pkg/checksum.VerifCRCInjective", "clause": "CRC step injective in state and in byte", "bounds": {}},
+        {"entry": "pkg/checksum.VerifCRCFold", "tier": "thorough", "clause": "CRC.Write of two bytes = fold of the step", "bounds": {}},
+        {"entry": "pkg/checksum.VerifStdCRC32", "clause": "hash/crc32.Update (generic path) of one byte from an arbitrary state = bitwise reflected division; injective in the state", "bounds": {}},
+        {"entry": "pkg/checksum.VerifIPv4Checksum", "clause": "IPv4 checksum over 0..6 bytes in 3 chunks at every split", "bounds": {"bytes": "0..6"}},
+    ],
+    "assumptions": ["internal/cpu feature flags are all false in the engine: hash/crc32 takes its pure Go path"],
+    "outside": ["member names/sizes/payloads from independent writers, deflate/bzip2 decompression, zip/tar/gif/wav/png structure: whole-file parsing and decompression loops, no bounded kernel (not applicable to this technique)",
+                "hash/crc32 slicing-by-8 path for inputs >= 16 bytes: equivalence query undecided at 60 s (unknown)"],
 }
